@@ -176,6 +176,15 @@ def ctr_patterns_w1(bs):
         [L - 3 * bs - 5] + [1] * (3 * bs + 7),   # 1-byte calls across the limit
         [bs * 8 - 3, bs * 8 + 3, L - 16 * bs, 1],   # cuts inside the 8-block look-ahead window
         [0, L, 0, 1],                      # empty calls around the limit
+    ] + [
+        # the call that crosses the limit, systematically: it starts k bytes before the limit and asks for b bytes, k and b on
+        # both sides of the block size and of the native 8-block key-stream batch (whole batches take their own path)
+        [L - k, b, 1]
+        for k in (0, 1, bs - 1, bs, bs + 1, 8 * bs - 1, 8 * bs, 8 * bs + 1, 16 * bs, 19 * bs + 3)
+        for b in (1, bs - 1, bs, bs + 1, 8 * bs - 1, 8 * bs, 8 * bs + 1, 16 * bs, 16 * bs + 1, 24 * bs)
+    ] + [
+        # ... and reached by whole batches only
+        [8 * bs] * 32 + [8 * bs], [16 * bs] * 16 + [bs], [8 * bs] * 31 + [16 * bs], [L + 8 * bs], [L + 16 * bs], [L + bs],
     ]
 
 
